@@ -254,6 +254,10 @@ def run_req(sc, sink, res=None):
         sink.mon("mon-c04 %s %s %s" % (api, sc["args"], vr(frame)), sc, ["c04-nonconforming-" + api])
         sc["_frame"] = frame
         sc["_ref"] = Q.ref_encode(api, args, sc["now"])
+    elif r[0] != "ok" and api != "header":
+        # the encoder refused: that is a violation when the arguments are ones it must accept
+        # (Afkak.Monitor.C04.must..., the hypotheses of the C04_*_total theorems)
+        sink.mon("must-c04 %s %s" % (api, sc["args"]), sc, ["c04-spurious-refusal-" + api])
     if res is not None:
         res.count("enc:" + api + (":ok" if r[0] == "ok" else ":" + r[1]))
 
@@ -435,7 +439,7 @@ def run_version(sc, sink, res=None):
     w.net.on_frame = on_frame
     w.net.policy = lambda p: p.accept()
     client = KafkaClient("b0:9092", reactor=w.clock, endpoint_factory=w.net, timeout=3000, enable_protocol_version_discovery=(sc["kind"] != "off"))
-    outcomes, states_before = [], []
+    outcomes, states_before, direct_at = [], [], None
     with W.Externals(1500000000123):
         if sc["api"] == "produce":
             producer = Producer(client, codec=sc["codec"])
@@ -443,6 +447,18 @@ def run_version(sc, sink, res=None):
                 states_before.append(client._api_versions)
                 got = []
                 producer.send_messages(topic, msgs=[b"m%d-%d" % (b, i) for i in range(sc["nmsgs"])]).addBoth(got.append)
+                _pump(w, lambda: bool(got))
+                outcomes.append(got[0] if got else None)
+            if nparts >= 2:
+                # the client's own entry point, one payload per partition: a reply with several partitions
+                # decodes to the broker's values only under the layout of the version that was requested
+                import afkak.kafkacodec as KC
+                direct_at = len(states_before)
+                states_before.append(client._api_versions)
+                magic = 1 if client._api_versions else 0
+                got = []
+                client.send_produce_request([C.ProduceRequest(topic, p, [KC.create_message(b"d%d" % p, magic=magic)]) for p in range(nparts)],
+                                            acks=1, timeout=1000).addBoth(got.append)
                 _pump(w, lambda: bool(got))
                 outcomes.append(got[0] if got else None)
         else:
@@ -466,7 +482,7 @@ def run_version(sc, sink, res=None):
                     for p in t["partitions"]:
                         deep = RC.expand_message_set(p["messages"])
                         magics += [m["magic"] for m in p["messages"]] + [m["magic"] for m in deep]
-                        want = [b"m%d-%d" % (bi, i) for i in range(sc["nmsgs"])]
+                        want = [b"d%d" % p["partition"]] if bi == direct_at else [b"m%d-%d" % (bi, i) for i in range(sc["nmsgs"])]
                         if [m["value"] for m in deep] != want:
                             sink.mon("produce-payload got=%r want=%r" % ([m["value"] for m in deep], want), sc, ["c04-version-frame-payload"])
                 if ver < 2 and any(m != 0 for m in magics):
@@ -486,6 +502,11 @@ def run_version(sc, sink, res=None):
         if isinstance(out, list) and sc["api"] == "fetch":
             got = sorted((t, p, e, hw, [(m.offset, m.message.value) for m in ms[0]], ms[1]) for t, p, e, hw, ms in out)
             want = sorted((topic, p, 0, 7, [(10 + p, b"v%d" % p)], "ok") for p in range(nparts))
+            if got != want:
+                sink.mon("reply-mismatch got=%r want=%r" % (got, want), sc, ["c04-reply-decoder-mismatch"])
+        elif sc["api"] == "produce" and isinstance(out, list):
+            got = sorted((r.topic, r.partition, r.error, r.offset) for r in out)
+            want = sorted((topic, p, 0, 100 + p) for p in range(nparts))
             if got != want:
                 sink.mon("reply-mismatch got=%r want=%r" % (got, want), sc, ["c04-reply-decoder-mismatch"])
         elif sc["api"] == "produce" and isinstance(out, C.ProduceResponse):
